@@ -34,6 +34,10 @@ Inductive expr :=
 | EAbort (m : option expr)
 | EReturn (e : expr)
 | ECall (f : fname) (args : list expr)            (* closure-free function call; arguments in parameter order *)
+| EDelExt (pfx : prefix) (p : path) (compact : bool)   (* del(.path, compact: literal) *)
+| EDelVar (x : ident) (p : path) (compact : bool)      (* del(var.path) *)
+| EExistsExt (pfx : prefix) (p : path)                 (* exists(.path) *)
+| EExistsVar (x : ident) (p : path)
 | EClosure (cf : cfn) (arg : expr) (params : list ident) (body : list expr).
 
 (* ExpressionError, as far as the runtime can raise it; error messages are abstracted away except
@@ -46,7 +50,19 @@ Inductive err :=
 
 Definition res := (value + err)%type.
 
-Record state := mkState { vars : list (ident * value); ev : value; md : value }.
+(* operations on the external target, as the Target trait sees them *)
+Inductive top :=
+| TGet (pfx : prefix) (p : path)
+| TIns (pfx : prefix) (p : path)
+| TRem (pfx : prefix) (p : path) (compact : bool).
+
+(* `tlog`: every Target operation performed so far, newest first (C16).
+   `faults`: the fault schedule of the target (C17): the n-th Target operation is rejected
+   (returns Err) iff the n-th element is true; an exhausted schedule rejects nothing. *)
+Record state := mkState { vars : list (ident * value); ev : value; md : value;
+                          tlog : list top; faults : list bool }.
+
+Definition st0 (vs : list (ident * value)) (e m : value) : state := mkState vs e m [] [].
 
 Fixpoint var_get (vs : list (ident * value)) (x : ident) : option value :=
   match vs with
@@ -64,7 +80,8 @@ Fixpoint var_remove (vs : list (ident * value)) (x : ident) : list (ident * valu
 Definition var_set (vs : list (ident * value)) (x : ident) (v : value) : list (ident * value) :=
   (x, v) :: var_remove vs x.
 
-Definition set_vars (s : state) (vs : list (ident * value)) : state := mkState vs (ev s) (md s).
+Definition set_vars (s : state) (vs : list (ident * value)) : state :=
+  mkState vs (ev s) (md s) (tlog s) (faults s).
 
 (* the message stored by `ok, err = e` when e fails; its text is not modelled *)
 Definition ERRMSG : value := VBytes [0; 69; 82; 82; 0]%N.
